@@ -539,6 +539,17 @@ def _mix_cdf(c, proj, s, W):
     return float(np.sum(W * ndtr((c - proj) / s)))
 
 
+def _outside(case, v):
+    """Log-density reported for points that do not satisfy the constraint: -inf, or NaN (what a hierarchical prior
+    returns when a parent falls outside its support), or a mixture of both."""
+    style = case['seed'] % 3
+    if style == 0:
+        return -np.inf
+    if style == 1:
+        return np.nan
+    return np.where(np.asarray(v) * 1e6 % 2 < 1, np.nan, -np.inf)
+
+
 def make_constraint(case, rng, M, W, C):
     """Constraint with mixture mass >= 20 %, derived from the mixture itself. Returns (pure logpdf fn, description)."""
     d = M.shape[1]
@@ -562,7 +573,7 @@ def make_constraint(case, rng, M, W, C):
             def pure(z):
                 D = as_rows(z) - mu
                 m = np.einsum('ij,jk,ik->i', D, Cinv, D)
-                return np.where(m <= r2, -0.5 * m, -np.inf)
+                return np.where(m <= r2, -0.5 * m, _outside(case, m))
             return pure, {'kind': 'ball', 'component': j, 'r2': r2, 'mass_lower_bound': float(W[j] * p)}
     if kind == 'half':
         a = rng.normal(size=d)
@@ -583,7 +594,7 @@ def make_constraint(case, rng, M, W, C):
 
         def pure(z):
             v = as_rows(z) @ a
-            return np.where(v <= c, 0.0, -np.inf)
+            return np.where(v <= c, 0.0, _outside(case, v))
         return pure, {'kind': 'half', 'a': a, 'c': c, 'mass': mass}
 
     def pure(z):
